@@ -455,7 +455,7 @@ def flattened_json(has_aad: bool, e0: bool, c0: int, v0: bool, va: bool, alg_whe
 
 
 # ------------------------------------------------------------------ replay on the real code
-REAL = {"dir": None, "A128KW": "oct16", "A128GCMKW": "oct16", "RSA-OAEP": "RSA2048", "ECDH-ES": "P-256", "ECDH-ES+A128KW": "P-256",
+REAL = {"ECDH-1PU": "P-256", "ECDH-1PU+A128KW": "P-256", "dir": None, "A128KW": "oct16", "A128GCMKW": "oct16", "RSA-OAEP": "RSA2048", "ECDH-ES": "P-256", "ECDH-ES+A128KW": "P-256",
         "PBES2-HS256+A128KW": "oct24", "ECDH-ES/OKP": "X25519"}
 
 
@@ -471,7 +471,8 @@ def _mint(sc, R, vu, va, extra_hdr=None, aad=None):
     jwk = R.test_key(kind)
     wrong = [sc["ceklen"], sc["ceklen"] - 8, sc["ceklen"] + 8][[len(sc["cek"]) == sc["ceklen"], len(sc["cek"]) < sc["ceklen"], len(sc["cek"]) > sc["ceklen"]].index(True)]
     cek_in = None if wrong == sc["ceklen"] else bytes((i * 5 + 1) % 256 for i in range(wrong))
-    add, ek, cek = R.key_manage(alg, enc, R.public_jwk(jwk) if jwk["kty"] != "oct" else jwk, cek=cek_in, p2s=b"salt-input", p2c=1000)
+    add, ek, cek = R.key_manage(alg, enc, R.public_jwk(jwk) if jwk["kty"] != "oct" else jwk, cek=cek_in, p2s=b"salt-input", p2c=1000,
+                                sender_priv=sc.get("sender_jwk"))
     hdr = {"alg": alg, "enc": enc, **add}
     if "zip" in sc["hdr"]:
         hdr["zip"] = "DEF"
@@ -535,9 +536,22 @@ def replay(func, call):
         elif func == "compact_ecdhkw":
             enc_i, iv_i, tag_i, ek_present, cek_i, epk_bad, v0, v1 = args
             mode_i, has_zip = 5, False
+        elif func == "compact_1pu":
+            direct1, enc_i, iv_i, tag_i, ek_present, cek_i, epk_bad, sender_i, v0, v1 = args
+            mode_i, has_zip = (8 if direct1 else 9), False
         else:
             return {"violated": None, "detail": "witness"}
         sc = scenario(mode_i, enc_i, iv_i, tag_i, ek_present, cek_i, has_zip, epk_bad)
+        sender_arg = None
+        if func == "compact_1pu":
+            from cryptography.hazmat.primitives.asymmetric import ec as _ec
+
+            def _snd(crv, curve, L, d):
+                pn = _ec.derive_private_key(d, curve).public_key().public_numbers()
+                return {"kty": "EC", "crv": crv, "x": R.i2b(pn.x, L), "y": R.i2b(pn.y, L), "d": R.i2b(d, L)}
+            sc["sender_jwk"] = _snd("P-256", _ec.SECP256R1(), 32, 0x1234567)
+            other = _snd("P-384", _ec.SECP384R1(), 48, 0x7654321)
+            sender_arg = [JWKRegistry.import_key(R.public_jwk(sc["sender_jwk"])), None, JWKRegistry.import_key(R.public_jwk(other))][sender_i]
         direct = sc["mode"] in DIRECT
         vu, va = (True, v0) if direct else (v0, v1)
         jwk, hdr, ek, cek, iv, pt = _mint(sc, R, vu, va)
@@ -560,18 +574,33 @@ def replay(func, call):
                     ekx = b""
                 if not direct and not vu and ekx:
                     ekx = _flip(ekx, len(ekx) // 2)
+                if sc["mode"] == "ECDH-1PU+A128KW" and ekx and ek_present:
+                    # key agreement with key wrapping: the KDF input contains the authentication tag of the content
+                    _, ekx, _ = R.key_manage(sc["alg"], sc["enc"], R.public_jwk(jwk), cek=cek, sender_priv=sc["sender_jwk"], tag_for_1pu=tag)
+                    if not vu:
+                        ekx = _flip(ekx, len(ekx) // 2)
                 ivx = [iv, iv[:-1], iv + b"\x00" * 4, b""][iv_i]
                 tagx = [tag, tag[:8], b"", tag + b"\x00"][tag_i]
                 ctx = ct if va else _flip(ct)
-                token = b".".join(R.b64e(x).encode() if not isinstance(x, str) else x.encode() for x in [b"", ekx, ivx, ctx, tagx])
-                token = h2 + token
-                try:
-                    obj = jwe.decrypt_compact(token, key, algorithms=[sc["alg"], sc["enc"], "DEF"])
-                except Exception as e:  # noqa
-                    last = {"violated": False, "detail": "real code rejected (%s)" % type(e).__name__}
+                pairs = [(ctx, tagx)]
+                if va and sc["kind"] == "gcm":
+                    # the same tag-length class realised as a PAIRED fault: octets moved across the ciphertext / tag boundary
+                    # (ciphertext || tag unchanged as a whole)
+                    pairs += {1: [(ct + tag[:8], tag[8:])], 2: [(ct + tag, b"")], 3: [(ct[:-1], ct[-1:] + tag)] if ct else []}.get(tag_i, [])
+                obj = None
+                for ctx, tagx in pairs:
+                    token = b".".join(R.b64e(x).encode() if not isinstance(x, str) else x.encode() for x in [b"", ekx, ivx, ctx, tagx])
+                    token = h2 + token
+                    try:
+                        obj = jwe.decrypt_compact(token, key, algorithms=[sc["alg"], sc["enc"], "DEF"], sender_key=sender_arg)
+                        break
+                    except Exception as e:  # noqa
+                        last = {"violated": False, "detail": "real code rejected (%s)" % type(e).__name__}
+                if obj is None:
                     continue
                 try:
-                    ref_pt, _ = R.compact_decrypt(token, jwk)
+                    ref_pt, _ = R.compact_decrypt(token, jwk, sender_pub=R.public_jwk(sc["sender_jwk"]) if sender_arg is not None and sender_i == 0 else None) \
+                        if func == "compact_1pu" else R.compact_decrypt(token, jwk)
                     ok = True
                 except R.RefError as e:
                     ok, ref_pt = False, repr(e)
